@@ -98,9 +98,12 @@ def oracle_c12(c, run):
 def oracle_c13(c, run):
     """at every decision of the loop no packet of a strictly higher priority was waiting; priorities are positive"""
     fails = []
-    if run.raised or run.exhausted:
+    # a run that the watchdog cut because the loop stopped yielding is still judged on the decisions it took until then (its log is
+    # complete up to the last kernel step); any other exception ends the statement's domain ("the run never raises" is C12's)
+    spin = bool(run.raised) and str(run.raised).startswith('TimeoutError')
+    if run.exhausted or (run.raised and not spin):
         return [], {}
-    prio = dict(map(tuple, c['table']))
+    prio = dict(map(tuple, c['table']))          # the values as configured (not the ranks the model is given)
     waiting = []          # packets arrived and not yet chosen, in global action order
     chosen = None
     stats = {'decisions': 0, 'multi_level_decisions': 0, 'max_levels': 0}
